@@ -925,10 +925,135 @@ func c02R7(c *Ctx) {
 				p := c.iterationSkips(li, descends)
 				c.verdict(p == nil, rule, key, c.blockPos(li.Header), "every element is descended into (or the walk ends with an error)",
 					"an iteration of this loop can go on to the next element without descending into the current one: expressions inside the skipped element are not "+walkerEffect(c.fnName(root)), p...)
+				// the loop is not bypassed: once the container view the loop walks exists, no successful return leaves the
+				// function without having gone through the loop
+				if view := walkedContainer(li); view != nil {
+					var bypass []string
+					eachInstr(f, func(r instrRef) {
+						ret, ok := r.I.(*ssa.Return)
+						if !ok || li.Blocks[r.Block] {
+							return
+						}
+						res := retResults(ret)
+						if len(res) == 0 {
+							return
+						}
+						if last := res[len(res)-1]; !isNilConst(last) {
+							if _, isErr := last.Type().Underlying().(*types.Interface); isErr {
+								return // error return
+							}
+						}
+						if !dominates(view, ret) || blockDominates(li.Header, r.Block) {
+							return
+						}
+						// a decision taken between the container view and the loop — other than the dispatch on the kind
+						// of the value and the emptiness test — that leads to this return
+						for _, t := range f.Blocks {
+							ifi, isIf := t.Instrs[len(t.Instrs)-1].(*ssa.If)
+							if !isIf || li.Blocks[t] || !dominates(view, ifi) || !blockDominates(t, li.Header) || !blockDominates(t, r.Block) {
+								continue
+							}
+							if isKindDispatch(ifi.Cond) || isEmptinessTest(ifi.Cond) {
+								continue
+							}
+							bypass = append(bypass, c.instrPos(ret))
+							break
+						}
+					})
+					c.verdict(len(bypass) == 0, rule, key+"#not-bypassed", c.blockPos(li.Header), "no successful return bypasses the loop once the container is at hand",
+						fmt.Sprintf("a successful return at %s leaves the walker after the container was looked at but without walking its elements: expressions in it are not %s", strings.Join(bypass, ", "), walkerEffect(c.fnName(root))))
+				}
 			}
 		}
 	}
 	c.minCount(rule, "element loops in the tree walkers", n, 8)
+}
+
+// walkedContainer: the instruction that produces the container view a walker loop iterates over: the receiver of the
+// reflect Len/Index/MapKeys/MapIndex calls in the loop, or the operand of the range.
+func walkedContainer(li *loopInfo) ssa.Instruction {
+	var view ssa.Value
+	for b := range li.Blocks {
+		for _, in := range b.Instrs {
+			cc := callCommon(in)
+			if cc == nil || len(cc.Args) == 0 {
+				continue
+			}
+			switch calleeName(cc) {
+			case "(reflect.Value).Len", "(reflect.Value).Index", "(reflect.Value).MapKeys", "(reflect.Value).MapIndex":
+				view = cc.Args[0]
+			}
+		}
+	}
+	if view == nil {
+		view = li.Range
+	}
+	if view == nil {
+		return nil
+	}
+	// spilled value receivers: `v` lives in a cell, the calls load it — take the store's value
+	if u, ok := view.(*ssa.UnOp); ok {
+		if al, ok := u.X.(*ssa.Alloc); ok {
+			if sv := soleStore(al); sv != nil {
+				view = sv
+			}
+		}
+	}
+	in, ok := view.(ssa.Instruction)
+	if !ok || li.Blocks[in.Block()] {
+		return nil
+	}
+	return in
+}
+
+// isKindDispatch: a comparison of a reflect Kind() / TypeID() result with a constant, or the ok of a type assertion.
+func isKindDispatch(cond ssa.Value) bool {
+	switch x := cond.(type) {
+	case *ssa.BinOp:
+		if _, isC := x.Y.(*ssa.Const); !isC {
+			return false
+		}
+		if call, ok := x.X.(*ssa.Call); ok {
+			n := calleeName(call.Common())
+			if strings.HasSuffix(n, ".Kind") || strings.HasSuffix(n, ".TypeID") || strings.HasSuffix(n, ".Type") {
+				return true
+			}
+			if call.Common().IsInvoke() && (call.Common().Method.Name() == "TypeID" || call.Common().Method.Name() == "Kind" || call.Common().Method.Name() == "Type") {
+				return true
+			}
+		}
+	case *ssa.Extract:
+		if ta, ok := x.Tuple.(*ssa.TypeAssert); ok && ta.CommaOk && x.Index == 1 {
+			return true
+		}
+	}
+	return false
+}
+
+// isEmptinessTest: len(x) / x.Len() compared with the constant 0 (or 1 with < / >=).
+func isEmptinessTest(cond ssa.Value) bool {
+	b, ok := cond.(*ssa.BinOp)
+	if !ok {
+		return false
+	}
+	k, isC := constInt(b.Y)
+	if !isC || k != 0 || (b.Op != token.EQL && b.Op != token.NEQ) {
+		return false
+	}
+	call, ok := b.X.(*ssa.Call)
+	if !ok {
+		return false
+	}
+	return isBuiltinCall(call, "len") || strings.HasSuffix(calleeName(call.Common()), ".Len")
+}
+
+func blockDominates(a, b *ssa.BasicBlock) bool {
+	for x := b; x != nil; x = x.Idom() {
+		if x == a {
+			return true
+		}
+	}
+	return false
 }
 
 func walkerEffect(root string) string {
